@@ -387,22 +387,77 @@ fn build_sidecar(parquet_path: &Path, dir: &Path, src_meta: &std::fs::Metadata) 
         .ok_or_else(|| QueryError::Execution("source mtime unavailable for stamp".into()))?;
     std::fs::write(dir.join(".complete"), stamp)?;
 
-    // Atomic publication: rename the staging dir into place. If the final
-    // dir exists (stale, or a cross-process racer won), remove-then-rename;
-    // if the rename still loses, defer to whatever is there — the fresh
-    // check on the next call decides.
+    // Publication must never disturb a reader. Readers only ever use a FRESH
+    // sidecar, so a fresh published directory is never removed or renamed:
+    //   * rename the staging dir into place - that succeeds when nothing (or
+    //     an empty directory) is there;
+    //   * if something is there and it is fresh, a concurrent builder (another
+    //     process) won the race: keep theirs, discard ours;
+    //   * if it is stale, move it aside with one atomic rename (nobody reads a
+    //     stale sidecar) and try once more; whoever loses that second rename
+    //     discards its own staging directory.
+    // (The old remove_dir_all-then-rename deleted a sidecar that another
+    // process had just published while readers were mmapping its files.)
     let final_dir = sidecar_dir(parquet_path);
     #[cfg(qe_verif)]
-    crate::verif::park::point("ipc.build.before_remove_final");
-    let _ = std::fs::remove_dir_all(&final_dir);
+    crate::verif::park::point("ipc.build.before_publish");
+    // Builders of different processes take an advisory lock for the publish
+    // step, so nobody can publish between the freshness check and the move
+    // below (which would displace a sidecar readers are using). Readers never
+    // take it.
     #[cfg(qe_verif)]
-    crate::verif::park::point("ipc.build.final_removed");
+    let _verif_publish_unlocked = crate::verif::park::PointOnDrop("ipc.build.publish_unlocked");
+    let _publish_lock = PublishLock::acquire(&final_dir);
+    #[cfg(qe_verif)]
+    crate::verif::park::point("ipc.build.publish_locked");
     if std::fs::rename(&staging, &final_dir).is_err() {
-        let _ = std::fs::remove_dir_all(&staging);
+        if is_fresh(&final_dir, src_meta) {
+            let _ = std::fs::remove_dir_all(&staging);
+            return Ok(());
+        }
+        #[cfg(qe_verif)]
+        crate::verif::park::point("ipc.build.before_move_stale");
+        let graveyard = staging.with_extension("stale");
+        let _ = std::fs::remove_dir_all(&graveyard);
+        let _ = std::fs::rename(&final_dir, &graveyard);
+        #[cfg(qe_verif)]
+        crate::verif::park::point("ipc.build.final_removed");
+        if std::fs::rename(&staging, &final_dir).is_err() {
+            let _ = std::fs::remove_dir_all(&staging);
+        }
+        let _ = std::fs::remove_dir_all(&graveyard);
     }
     #[cfg(qe_verif)]
     crate::verif::park::point("ipc.build.published");
     Ok(())
+}
+
+/// Cross-process advisory lock (`flock`) held while a builder publishes.
+/// Best effort: where it cannot be taken the publish proceeds unlocked.
+struct PublishLock {
+    #[allow(dead_code)]
+    file: Option<File>,
+}
+
+impl PublishLock {
+    fn acquire(final_dir: &Path) -> Self {
+        let path = final_dir.with_extension("publish.lock");
+        let file = std::fs::OpenOptions::new()
+            .create(true)
+            .truncate(false)
+            .write(true)
+            .open(path)
+            .ok();
+        #[cfg(unix)]
+        if let Some(f) = &file {
+            use std::os::unix::io::AsRawFd;
+            // SAFETY: flock on a descriptor we own; released when `file` drops.
+            unsafe {
+                libc::flock(f.as_raw_fd(), libc::LOCK_EX);
+            }
+        }
+        PublishLock { file }
+    }
 }
 
 /// Read one row group's batches from the sidecar, applying an optional
